@@ -83,7 +83,24 @@ def run(argv, cwd, tag="run", timeout=60.0, env_extra=None, stdin_path=None, pre
                 os.environ.update(env_extra)
             fo = os.open(outp, os.O_WRONLY | os.O_CREAT | os.O_TRUNC, 0o644)
             fe = os.open(errp, os.O_WRONLY | os.O_CREAT | os.O_TRUNC, 0o644)
-            fi = os.open(stdin_path or "/dev/null", os.O_RDONLY)
+            if stdin_path and stdin_path.startswith("pipe:"):
+                # standard input is a pipe fed by another process (as in `cat file | cutadapt -`), not a seekable file
+                fi, w = os.pipe()
+                if os.fork() == 0:
+                    try:
+                        os.close(fi)
+                        with open(stdin_path[5:], "rb") as fh:
+                            data = fh.read()
+                        while data:
+                            n = os.write(w, data[:65536])
+                            data = data[n:]
+                    except BaseException:
+                        pass
+                    finally:
+                        os._exit(0)
+                os.close(w)
+            else:
+                fi = os.open(stdin_path or "/dev/null", os.O_RDONLY)
             os.dup2(fi, 0)
             os.dup2(fo, 1)
             os.dup2(fe, 2)
